@@ -1,4 +1,4 @@
-import PonyVerif.Model.TxnProtocol
+import PonyVerif.Lemmas.TxnProtocol
 /-
   C17 — a session's writes are atomic under crashes and database errors.
 
@@ -6,103 +6,7 @@ import PonyVerif.Model.TxnProtocol
   anywhere), all initial databases and all crash points.
 -/
 namespace PonyVerif.Props.C17
-open PonyVerif.Model.TxnProtocol
-
-/-- link between the recogniser's phase, the statements collected for the open transaction, and the database -/
-def Inv (p : Phase) (cur : List (List RowWrite)) (d : Db) : Prop :=
-  (p = .txn → d.pending = some (applyTx d.committed cur)) ∧ (p ≠ .txn → d.pending = none)
-
-theorem applyTx_snoc (s : Store) (cur : List (List RowWrite)) (ws : List RowWrite) :
-    applyTx s (cur ++ [ws]) = applyStmt (applyTx s cur) ws := by
-  simp [applyTx, List.foldl_append]
-
-/-- one event: either it is the COMMIT of the open transaction (the committed state takes ALL collected statements)
-    or the committed state does not move -/
-theorem step_inv {p p' : Phase} {cur : List (List RowWrite)} {d : Db} {e : Ev}
-    (hI : Inv p cur d) (hn : next p e = some p') :
-    if p = .txn ∧ e = ⟨.commit, true⟩
-    then (exec d e).committed = applyTx d.committed cur ∧ Inv p' [] (exec d e)
-    else (exec d e).committed = d.committed ∧ Inv p' (curAfter p cur e) (exec d e) := by
-  obtain ⟨s, ok⟩ := e
-  obtain ⟨h1, h2⟩ := hI
-  cases p <;> cases s <;> cases ok <;> simp [next] at hn <;> subst hn <;>
-    simp [exec, curAfter, Inv] at * <;> simp_all [applyTx_snoc] <;> simp [applyTx]
-
-theorem head_mem_boundaries (pre : Store) (l : List (List (List RowWrite))) : pre ∈ boundaries pre l := by
-  cases l <;> simp [boundaries]
-
-theorem run_cons (d : Db) (e : Ev) (t : List Ev) : run d (e :: t) = run (exec d e) t := rfl
-
-theorem accepts_cons {p : Phase} {e : Ev} {t : List Ev} (h : accepts p (e :: t) = true) :
-    ∃ p', next p e = some p' ∧ accepts p' t = true := by
-  simp only [accepts, runL] at h
-  cases hn : next p e with
-  | none => simp [hn] at h
-  | some p' => exact ⟨p', rfl, by simpa [hn, accepts] using h⟩
-
-/-- general form (any phase, any open transaction): after any prefix the committed state is a transaction boundary -/
-theorem crash_mem_boundaries (t : List Ev) : ∀ (p : Phase) (cur : List (List RowWrite)) (d : Db),
-    Inv p cur d → accepts p t = true → ∀ k, crash (run d (t.take k)) ∈ boundaries d.committed (txns p cur t) := by
-  induction t with
-  | nil => intro p cur d _ _ k; simp [run, crash, txns, boundaries]
-  | cons e t ih =>
-    intro p cur d hI hA k
-    cases k with
-    | zero => simpa [run, crash] using head_mem_boundaries _ _
-    | succ k =>
-      obtain ⟨p', hn, hA'⟩ := accepts_cons hA
-      have hs := step_inv hI hn
-      simp only [List.take_succ_cons, run_cons, txns, hn]
-      split
-      · next hc =>
-        rw [if_pos hc] at hs
-        have := ih p' [] (exec d e) hs.2 hA' k
-        rw [hs.1] at this
-        simp only [boundaries]
-        exact List.mem_cons_of_mem _ this
-      · next hc =>
-        rw [if_neg hc] at hs
-        have := ih p' (curAfter p cur e) (exec d e) hs.2 hA' k
-        rw [hs.1] at this
-        exact this
-
-/-- general form: when the trace has been run completely the committed state is the LAST boundary -/
-theorem final_eq_all (t : List Ev) : ∀ (p : Phase) (cur : List (List RowWrite)) (d : Db),
-    Inv p cur d → accepts p t = true → crash (run d t) = (txns p cur t).foldl applyTx d.committed := by
-  induction t with
-  | nil => intro p cur d _ _; simp [run, crash, txns]
-  | cons e t ih =>
-    intro p cur d hI hA
-    obtain ⟨p', hn, hA'⟩ := accepts_cons hA
-    have hs := step_inv hI hn
-    simp only [run_cons, txns, hn]
-    split
-    · next hc =>
-      rw [if_pos hc] at hs
-      rw [ih p' [] (exec d e) hs.2 hA', hs.1]; rfl
-    · next hc =>
-      rw [if_neg hc] at hs
-      rw [ih p' _ (exec d e) hs.2 hA', hs.1]
-
-/-- the boundaries are exactly: `pre` with the first j transactions WHOLLY applied -/
-theorem mem_boundaries (l : List (List (List RowWrite))) : ∀ (pre s : Store),
-    s ∈ boundaries pre l ↔ ∃ j, j ≤ l.length ∧ s = (l.take j).foldl applyTx pre := by
-  induction l with
-  | nil => intro pre s; simp [boundaries]
-  | cons tx r ih =>
-    intro pre s
-    simp only [boundaries, List.mem_cons, ih]
-    constructor
-    · rintro (h | ⟨j, hj, h⟩)
-      · exact ⟨0, by simp, by simpa using h⟩
-      · exact ⟨j + 1, by simpa using hj, by simpa using h⟩
-    · rintro ⟨j, hj, h⟩
-      cases j with
-      | zero => left; simpa using h
-      | succ j => right; exact ⟨j, by simpa using hj, by simpa using h⟩
-
-theorem inv_init (p : Phase) (hp : p ≠ .txn) (pre : Store) : Inv p [] (Db.init pre) := by
-  simp [Inv, Db.init, hp]
+open PonyVerif.Model.TxnProtocol PonyVerif.Lemmas.TxnProtocol
 
 /-! ## the property -/
 
@@ -155,16 +59,6 @@ theorem C17_error_path (p q : Phase) (pre : Store) (pfx : List Ev) (e : Ev) (rol
   generalize run (Db.init pre) pfx = d
   cases q <;> cases s <;> cases rollbackOk <;>
     simp [next, runL, errorPath, run, exec, crash] at * <;> (try cases hp : d.pending <;> simp [hp])
-
-theorem runL_append (a b : List Ev) : ∀ (p : Phase), runL p (a ++ b) = (runL p a).bind (fun q => runL q b) := by
-  induction a with
-  | nil => intro p; simp [runL]
-  | cons e a ih =>
-    intro p
-    simp only [List.cons_append, runL]
-    cases next p e with
-    | none => simp
-    | some p' => simpa using ih p'
 
 /-- **Raw statements are part of the same transaction.**  A write statement sent while the session's transaction is
     open (`db.execute`, `db.insert`, a generated INSERT/UPDATE/DELETE, an `executemany` — the alphabet does not
